@@ -5,7 +5,7 @@ CONSTANTS
   AmpsL <- Amps2
   Pin = 2
   Mutant = "conj_on_ket"
-  ExemptKnown = TRUE
+  PreFix = FALSE
   Emit = FALSE
 INVARIANT RdmGivesDense
 CHECK_DEADLOCK FALSE
